@@ -297,3 +297,67 @@ def pregen_query(ril, core=False, witness=False):
     p = dict(harness="harness/C06/h_pregen.c", units=["igzip/hufftables_c.c"], defines=FAST, hdefines=["RIL=%d" % ril],
              unwind=9, unwindset=["harness.0:1000", "harness.1:1000", "harness.2:1000", "memcmp.0:200", "inflate_in_load.0:9"], witness=witness)
     return Query("pregen_header/ril%d" % ril, R, p, core=core, family="pregen_header", weight=3)
+
+
+# ---------------------------------------------------------------- dynamic block with long codes: concrete header + symbolic data (lead)
+DYN_LL = {97: 1, 256: 2, 0: 3, 257: 4, 255: 5, 258: 6, 1: 7, 285: 8, 2: 9, 270: 10, 3: 11, 4: 12, 5: 13, 6: 14, 7: 15, 284: 15}
+DYN_DL = {i: (i + 1 if i < 11 else 12) for i in range(13)}      # 1..11, 12, 12: complete, symbols 10..12 are long (> 10 bit) codes
+
+
+def dyn_header(ll, dl, bfinal=1):
+    """complete dynamic-block header for the given {symbol: length} maps -> (bytes, nbits, lit/len length list, dist length list)"""
+    nl, nd = max(ll) + 1, max(dl) + 1
+    assert nl >= 257
+    lens = [ll.get(i, 0) for i in range(nl)] + [dl.get(i, 0) for i in range(nd)]
+    cc = _canon(CLC_LENS)
+    w = _Bits()
+    w.put(bfinal, 1), w.put(2, 2), w.put(nl - 257, 5), w.put(nd - 1, 5), w.put(15, 4)
+    for s_ in CLC_ORDER:
+        w.put(CLC_LENS[s_], 3)
+    i = 0
+    while i < len(lens):
+        if lens[i]:
+            w.huff(*cc[lens[i]])
+            i += 1
+            continue
+        run = 0
+        while i + run < len(lens) and lens[i + run] == 0:
+            run += 1
+        while run:
+            if run >= 11:
+                n = min(run, 138)
+                w.huff(*cc[18]), w.put(n - 11, 7)
+            elif run >= 3:
+                n = run
+                w.huff(*cc[17]), w.put(n - 3, 3)
+            else:
+                n = 1
+                w.huff(*cc[0])
+            run -= n
+            i += n
+    return w.bytes(), len(w.bits), lens[:nl], lens[nl:]
+
+
+def dyncodes_query(decoder, n, avail_out, valid_only, pad=0, core=False, witness=False, timeout=None, mem_gb=None):
+    """C02/C06: a dynamic block whose header (concrete, generated here) defines complete codes with lit/len codes up to 15 bits and
+    distance codes up to 12 bits; the n data bytes after it are symbolic.  decoder: "base" or "01"/"04" (assembly, lifted)."""
+    hdr, nbits, ll, dl = dyn_header(DYN_LL, DYN_DL)
+    nt = (nbits + 8 * n + 7) // 8 + pad
+    hdef = ["N=%d" % n, "PAD=%d" % pad, "AVAIL_OUT=%d" % avail_out, "DYNHDR=" + ",".join(map(str, hdr)), "DYN_HDR_BITS=%d" % nbits,
+            "DYN_LL=" + ",".join(map(str, ll)), "DYN_DL=" + ",".join(map(str, dl))] + (["VALID_ONLY"] if valid_only else [])
+    p = dict(harness="harness/C02/h_fixed.c", units=["igzip/hufftables_c.c"], defines=FAST, hdefines=hdef,
+             unwind=600,   # concrete table construction unrolls exactly; data-dependent loops bounded below
+             unwindset=["rfc_codes.1:%d" % (8 * n // 1 + 4), "rfc_codes.0:%d" % (avail_out + 3), "rfc_bits.0:17", "rfc_decode.0:17", "rfc_code_bits.0:9",
+                        "inflate_in_load.0:9", "byte_copy.0:%d" % (avail_out + 2), "memcpy.0:%d" % (max(8, avail_out) + 1),
+                        "decode_huffman_code_block_stateless_base.1:%d" % (8 * n + 4), "decode_huffman_code_block_stateless_base.0:3",
+                        "LIFT_RD.0:9", "LIFT_WR.0:9", "lift_rep_movs.0:%d" % (max(avail_out, 8) + 2), "lift_ctz.0:65", "lift_clz.0:65"],
+             flags=["--slice-formula"], witness=witness)
+    if decoder != "base":
+        p["hdefines"] = hdef + ["ASMDEC=%s" % decoder]
+        p["instrument"] = [["@gen", "harness.inflate_common.lift_gen:gen_asmdec", "lift_asmdec.c", {"variant": decoder}]]
+    if timeout:
+        p["timeout"] = timeout
+    if mem_gb:
+        p["mem_gb"] = mem_gb
+    fam = "dyn_longcodes_%s_%s" % (decoder, "valid" if valid_only else "arbitrary")
+    return Query("%s/n%d_ao%d" % (fam, n, avail_out), R, p, core=core, family=fam, weight=200)
